@@ -59,6 +59,12 @@ Proof.
     destruct Hv as [-> | ->]; cbn; congruence.
 Qed.
 
+Lemma claim_try_offset cf pom lo hi a1 a2 o : claim_try cf pom lo hi a1 a2 = Some o -> claim_offset cf pom lo hi = Some o /\ a1 = true.
+Proof.
+  unfold claim_try, claim_offset. destruct a1; [|discriminate]. destruct (in_range (next_offset cf pom) lo hi); [auto|].
+  destruct a2; cbn; [|discriminate]. destruct (in_range (c_initial cf) lo hi); [auto|discriminate].
+Qed.
+
 (* J: a claim whose ConsumeClaim has not started still holds the offset fetched from the coordinator,
    and the coordinator's store does not change while claims can start *)
 Definition Jphase (w : world) : bool := match w_phase w with PManage _ | PSetup | PRunning | PReleasing => true | _ => false end.
@@ -89,7 +95,7 @@ Proof.
     destruct (cl_state c) eqn:Hc; try exact HJ.
     destruct (live_inv w Hl) as [Hp _].
     assert (HJ' : forall x, In x (s_claims w) -> cl_state x = CSpawned -> cl_pom x = committed (w_store w) (cl_part x)) by (apply HJ; destruct Hp as [-> | ->]; reflexivity).
-    destruct (ending w); [|destruct (log_get (w_log w) p) as [lo hi]; destruct (if created then _ else _)]; cbn [fst]; unfold claim_exit; cbn;
+    destruct (ending w); [|destruct (log_get (w_log w) p) as [lo hi]; destruct (claim_try _ _ _ _ _ _)]; cbn [fst]; unfold claim_exit; cbn;
       intros _ x Hx Hs; apply claim_put_in in Hx as [-> | Hx]; try (cbn in Hs; discriminate Hs); auto.
   - (* IDeliver *)
     destruct (claims_live w) eqn:Hl; [|exact HJ]. destruct (claim_find (s_claims w) p) as [c|] eqn:Hf; [|exact HJ].
@@ -123,13 +129,13 @@ Qed.
 (* At any reachable state: a ConsumeClaim that starts on partition p gets, as its InitialOffset, the offset the
    coordinator currently stores for p when that lies inside the log, else Consumer.Offsets.Initial; and the first
    record it will receive is that offset resolved against the log. *)
-Theorem claim_start_holds cf st lg ins p created o :
+Theorem claim_start_holds cf st lg ins p a1 a2 o :
   valid_initial cf ->
   let w := final cf (init_world st lg) ins in
-  In (EvClaimStart p o) (snd (step cf w (IClaimGo p created))) ->
+  In (EvClaimStart p o) (snd (step cf w (IClaimGo p a1 a2))) ->
   let '(lo, hi) := log_get (w_log w) p in
-  o = start_spec cf (committed (w_store w) p) lo hi /\
-  exists c, claim_find (s_claims (fst (step cf w (IClaimGo p created)))) p = Some c /\ cl_state c = CRunning /\
+  a1 = true /\ o = start_spec cf (committed (w_store w) p) lo hi /\
+  exists c, claim_find (s_claims (fst (step cf w (IClaimGo p a1 a2)))) p = Some c /\ cl_state c = CRunning /\
             cl_start c = resolve o lo hi /\ cl_consumed c = 0%nat.
 Proof.
   intros Hv w. assert (HJ : J w) by (apply J_run; unfold J, Jphase; cbn; intros H; discriminate H).
@@ -139,9 +145,9 @@ Proof.
   destruct (ending w).
   { cbn. intros [H|[H|[]]]; discriminate H. }
   destruct (log_get (w_log w) p) as [lo hi] eqn:Hlog.
-  destruct (if created then claim_offset cf (cl_pom c) lo hi else None) as [o'|] eqn:Ho.
+  destruct (claim_try cf (cl_pom c) lo hi a1 a2) as [o'|] eqn:Ho.
   - cbn [fst snd]. intros [H|[]]. injection H as ->.
-    destruct created; [|discriminate Ho].
+    apply claim_try_offset in Ho as [Ho Ha1]. split; [exact Ha1|].
     destruct (live_inv w Hl) as [Hp _].
     assert (Hpom : cl_pom c = committed (w_store w) (cl_part c)).
     { apply HJ; [unfold Jphase; destruct Hp as [-> | ->]; reflexivity | eapply claim_find_in; eauto | exact Hc]. }
@@ -209,7 +215,7 @@ Section NoSkip.
   Proof. unfold enter_commit. destruct n; [|destruct (dirty_blocks _)]; cbn; auto. Qed.
 
   Definition quiet (i : input) : bool :=
-    match i with IFetch _ | IClaimGo _ _ | IDeliver _ | IClaimReturn _ | ICommit _ | IProduce _ | ICleanup => false | _ => true end.
+    match i with IFetch _ | IClaimGo _ _ _ | IDeliver _ | IClaimReturn _ | ICommit _ | IProduce _ | ICleanup => false | _ => true end.
   Lemma quiet_frame w i : quiet i = true ->
     let w' := fst (step cf w i) in w_store w' = w_store w /\ w_log w' = w_log w /\ (s_claims w' = s_claims w \/ s_claims w' = []).
   Proof.
@@ -292,16 +298,16 @@ Section NoSkip.
     - intros x Hx. apply claim_put_in in Hx as [-> | Hx]; [exact Hc|]. eapply Kclaim_frame with (w := w); eauto.
   Qed.
 
-  Lemma K_claimgo w tr q created : K w tr -> K (fst (step cf w (IClaimGo q created))) (tr ++ snd (step cf w (IClaimGo q created))).
+  Lemma K_claimgo w tr q a1 a2 : K w tr -> K (fst (step cf w (IClaimGo q a1 a2))) (tr ++ snd (step cf w (IClaimGo q a1 a2))).
   Proof.
     intros HK. cbn [step]. destruct (claims_live w); [|cbn; rewrite app_nil_r; exact HK].
     destruct (claim_find (s_claims w) q) as [c|] eqn:Hf; [|cbn; rewrite app_nil_r; exact HK].
     destruct (cl_state c) eqn:Hst; try (cbn; rewrite app_nil_r; exact HK).
     destruct (ending w); [cbn [fst snd]; eapply K_exit; eauto|].
     destruct (log_get (w_log w) q) as [lo hi] eqn:Hlog.
-    destruct (if created then claim_offset cf (cl_pom c) lo hi else None) as [o|] eqn:Ho; [|cbn [fst snd]; eapply K_exit; eauto].
+    destruct (claim_try cf (cl_pom c) lo hi a1 a2) as [o|] eqn:Ho; [|cbn [fst snd]; eapply K_exit; eauto].
     cbn [fst snd]. apply K_put; [exact HK|].
-    destruct created; [|discriminate Ho].
+    apply claim_try_offset in Ho as [Ho _].
     pose proof (claim_find_part _ _ _ Hf) as Hq.
     destruct HK as ((H1 & H2) & H3 & H4). pose proof (H4 c (claim_find_in _ _ _ Hf)) as Hc.
     intros Hp. cbn in Hp. rewrite Hq in Hp. rewrite Hp in *. clear Hp. destruct (Hc Hq) as [Ha _]. unfold lo_of, hi_of in *. rewrite Hlog in *. cbn in H1, H2.
